@@ -148,9 +148,13 @@ func (e *Env) lookup(name string) (SVal, bool) {
 			}
 		}
 		if name == "visited" && e.loop != nil {
-			for g, t := range e.cur.ghost {
-				if r, ok := g.(*ssa.Range); ok && e.loop.blocks[r.Block()] || ok && rangeFeeds(r, e.loop) {
-					return SVal{T: t}, true
+			gk := map[ssa.Value]bool{}
+			for g := range e.cur.ghost {
+				gk[g] = true
+			}
+			for _, g := range sortedValues(gk) {
+				if r, ok := g.(*ssa.Range); ok && (e.loop.blocks[r.Block()] || rangeFeeds(r, e.loop)) {
+					return SVal{T: e.cur.ghost[g]}, true
 				}
 			}
 		}
@@ -265,6 +269,8 @@ func (fe *FnEnc) findLocal(name string, l *Loop) *ssa.Alloc {
 
 func (e *Env) resolveType(name string) types.Type {
 	switch name {
+	case "Ref":
+		return types.Typ[types.Int]
 	case "int":
 		return types.Typ[types.Int]
 	case "int64":
@@ -528,6 +534,9 @@ func findPrimaryIndex(ex Expr, v string, own map[string]bool, inOld bool) (Expr,
 			walk(x.X, old)
 		case ECall:
 			o := old || x.Fn == "old"
+			if x.Fn == "now" {
+				o = false
+			}
 			for _, a := range x.Args {
 				walk(a, o)
 			}
@@ -910,6 +919,10 @@ func (fe *FnEnc) trCall(x ECall, env *Env) SVal {
 		e2 := *env
 		e2.inOld = true
 		return fe.mat(fe.tr(x.Args[0], &e2), &e2)
+	case "now": // inside old(...): evaluate in the current state
+		e2 := *env
+		e2.inOld = false
+		return fe.mat(fe.tr(x.Args[0], &e2), &e2)
 	case "fresh":
 		v := fe.mat(fe.tr(x.Args[0], env), env)
 		oa := fe.getComp(env.old, "alloc", sInt)
@@ -951,6 +964,25 @@ func (fe *FnEnc) trCall(x ECall, env *Env) SVal {
 		cur, old := fe.getComp(env.cur, cn, cs), fe.getComp(env.old, cn, cs)
 		oa := fe.getComp(env.old, "alloc", sInt)
 		return SVal{T: Term{fmt.Sprintf("(forall ((r Int)) (! (=> (<= r %s) (= (select %s r) (select %s r))) :pattern ((select %s r))))", oa.S, cur.S, old.S, cur.S), sBool}, Typ: types.Typ[types.Bool]}
+	case "frame_elems_but": // like frame_elems, except for the backing array of the given slice (as it was in the old state)
+		t := env.resolveType(exprName(x.Args[0]))
+		es := fe.sorts.sortOf(t)
+		cn, cs := compElems(es), arrSort(sInt, arrSort(sInt, es))
+		cur, old := fe.getComp(env.cur, cn, cs), fe.getComp(env.old, cn, cs)
+		oa := fe.getComp(env.old, "alloc", sInt)
+		e2 := *env
+		e2.inOld = true
+		sl := fe.mat(fe.tr(x.Args[1], &e2), &e2)
+		return SVal{T: Term{fmt.Sprintf("(forall ((r Int)) (! (=> (and (<= r %s) (not (= r %s))) (= (select %s r) (select %s r))) :pattern ((select %s r))))", oa.S, slArr(sl.T).S, cur.S, old.S, cur.S), sBool}, Typ: types.Typ[types.Bool]}
+	case "mapsame": // mapsame(K, V, m, k): entry k of map object m is the same as in the old state
+		kt := env.resolveType(exprName(x.Args[0]))
+		vt := env.resolveType(exprName(x.Args[1]))
+		mt := types.NewMap(kt, vt)
+		m := fe.tr(x.Args[2], env).T
+		k := fe.tr(x.Args[3], env).T
+		d1, v1, _, _, _ := fe.mapComps(env.cur, mt, false)
+		d0, v0, _, _, _ := fe.mapComps(env.old, mt, false)
+		return SVal{T: tAnd(tEq(tSel(tSel(d1, m), k), tSel(tSel(d0, m), k)), tEq(tSel(tSel(v1, m), k), tSel(tSel(v0, m), k))), Typ: types.Typ[types.Bool]}
 	case "frame_maps":
 		kt := env.resolveType(exprName(x.Args[0]))
 		vt := env.resolveType(exprName(x.Args[1]))
